@@ -39,6 +39,8 @@ int chunks = 1;
 extern "C" int omp_get_num_procs(void) noexcept { return verif::chunks; }
 extern "C" int omp_get_max_threads(void) noexcept { return verif::chunks; }
 
+#include "ompbind.hpp"
+
 using mc::Run;
 typedef __int128 i128;
 
@@ -477,6 +479,27 @@ int main(int argc, char **argv) {
     }
     run.run_tasks(tasks.size(), [&](uint64_t i) { if (!run.deadline_passed()) dispatch(run, cn, prop, tasks[i]); });
 
+    // Binding of the sequentialised chunks to the real OpenMP builder: the same family members must give bit-identical indexes
+    if (opt.extra.count("ompbind-bin") && !run.deadline_passed()) {
+        int c_cmp = run.counter("omp_binding_indexes_compared"), c_bad = run.counter("omp_binding_mismatches");
+        std::string out_file = "/tmp/verif_ompbind_" + std::to_string(getpid()) + ".txt";
+        std::string cmd = "'" + opt.extra["ompbind-bin"] + "' > '" + out_file + "' 2>/dev/null";
+        int rc = system(cmd.c_str());
+        std::map<std::string, std::string> real;
+        { std::istringstream in(mc::read_file(out_file)); std::string a, b; while (in >> a >> b) real[a] = b; }
+        unlink(out_file.c_str());
+        if (rc != 0 || real.empty()) run.harness_error("the OpenMP binding binary failed or printed nothing");
+        else for (auto &s : ompbind::specs()) {
+            verif::chunks = int(s.chunks);
+            uint64_t d = 0;
+            if (!ompbind::digest(s, d)) continue;
+            run.add(c_cmp, 3);
+            auto it = real.find(s.str());
+            if (it == real.end() || it->second != std::to_string((unsigned long long) d)) { run.add(c_bad); run.harness_error("sequentialised chunked build differs from the real OpenMP build for family=" + s.str() + " (the chunk-count interposition no longer models the library)"); }
+        }
+        verif::chunks = 1;
+    }
+
     mc::Run::EvidenceExtra ev;
     ev.states_counter = "arrays_segmented"; ev.transitions_counter = prop == 3 ? "point_vs_line_checks" : "maximality_checks_against_exact_oracle";
     ev.nontrivial_counter = "arrays_with_2plus_distinct_keys";
@@ -487,6 +510,6 @@ int main(int argc, char **argv) {
               "State = one segmented array; transition = one point checked; non-trivial = at least two distinct keys.";
     ev.bounds = "N<=" + std::to_string(N) + "; eps 0..3 small scope; families as in rule";
     ev.assumptions = {"hook H1 (PGM_INDEX_VERIF_BEGIN/POINT/SEGMENT) reports the points actually handed to OptimalPiecewiseLinearModel::add_point",
-                      "floating keys: line evaluated in long double, tolerance epsilon + 1 + 1e-3", "chunking sequentialised through omp interposition"};
+                      "floating keys: line evaluated in long double, tolerance epsilon + 1 + 1e-3", "chunking sequentialised through omp interposition; bound to the real -fopenmp build by comparing bit-identical index digests on seam/longrun/chunktail members with 2,3,5,16 threads (counter omp_binding_indexes_compared)"};
     return run.finish(ev);
 }
